@@ -98,6 +98,19 @@ def pool():
                 extra.append((label + " " + what, fn(u)))
             except (ValueError, TypeError):
                 pass
+    # the same text with the component boundaries elsewhere: pre-encoded parts may contain the delimiter of the NEXT component
+    # ('/a?q=1' as a path with no query against path '/a' + query 'q=1'); such URLs differ in their components
+    for label, u in [m for m in members if m[1].raw_query_string or m[1].raw_fragment][::5]:
+        sc, au, pa, q, f = key(u)
+        try:
+            if q:
+                extra.append((label + " query moved into the path", U.build(scheme=sc, authority=au, path=(pa or ("/" if au else "")) + "?" + q, fragment=f, encoded=True)))
+                extra.append((label + " query moved into the path by with_path", u.with_query(None).with_path((pa or "/") + "?" + q, encoded=True, keep_fragment=True)))
+            if f:
+                extra.append((label + " fragment moved into the query", U.build(scheme=sc, authority=au, path=pa, query_string=q + "#" + f, encoded=True)))
+                extra.append((label + " fragment moved into the path", U.build(scheme=sc, authority=au, path=(pa or ("/" if au else "")) + ("?" + q if q else "") + "#" + f, encoded=True)))
+        except (ValueError, TypeError):
+            pass
     extra.append(("build http h.com", U.build(scheme="http", host="h.com")))
     extra.append(("build http h.com /", U.build(scheme="http", host="h.com", path="/")))
     extra.append(("build http h.com:80", U.build(scheme="http", host="h.com", port=80)))
